@@ -15,10 +15,10 @@ def isProjectModule (env : Environment) (n : Name) : Bool :=
   | some idx => (env.header.moduleNames[idx.toNat]!).getRoot == `OrbitModel
   | none => false
 
-partial def coneOf (env : Environment) (root : Name) : Nat := Id.run do
+partial def coneOf (env : Environment) (root : Name) : Array Name := Id.run do
   let mut visited : NameSet := {}
   let mut todo : Array Name := #[root]
-  let mut count := 0
+  let mut thms : Array Name := #[]
   while !todo.isEmpty do
     let n := todo.back!
     todo := todo.pop
@@ -28,11 +28,13 @@ partial def coneOf (env : Environment) (root : Name) : Nat := Id.run do
     | none => pure ()
     | some ci =>
       if !isProjectModule env n then continue
-      if let .thmInfo _ := ci then count := count + 1
-      let used := ci.type.getUsedConstants ++ (match ci.value? with | some v => v.getUsedConstants | none => #[])
+      if let .thmInfo _ := ci then thms := thms.push n
+      let val : Option Expr := match ci with
+        | .thmInfo v => some v.value | .defnInfo v => some v.value | .opaqueInfo v => some v.value | _ => none
+      let used := ci.type.getUsedConstants ++ (match val with | some v => v.getUsedConstants | none => #[])
       for u in used do
         if !visited.contains u then todo := todo.push u
-  return count
+  return thms
 
 def isPropertyName (n : Name) : Bool :=
   match n.components with
@@ -49,4 +51,6 @@ run_cmd do
   for n in sorted do
     let ax ← Lean.collectAxioms n
     let axs := ", ".intercalate (ax.toList.map (fun a => "\"" ++ a.toString ++ "\""))
-    logInfo m!"AUDIT \{\"name\": \"{n}\", \"axioms\": [{axs}], \"cone\": {coneOf env n}}"
+    let cone := coneOf env n
+    let cs := ", ".intercalate (cone.toList.map (fun a => "\"" ++ a.toString ++ "\""))
+    logInfo m!"AUDIT \{\"name\": \"{n}\", \"axioms\": [{axs}], \"cone\": {cone.size}, \"cone_names\": [{cs}]}"
